@@ -13,7 +13,7 @@
 (***************************************************************************)
 EXTENDS Integers, Sequences, FiniteSets, TLC, Json
 
-CONSTANTS Cls, MsgKinds, Outs, DelayCls, Vals, Depth, Variant, MaxObjs, Parents
+CONSTANTS Cls, MsgKinds, Outs, DelayCls, Vals, Depth, Variant, MaxObjs, Parents, Fmts
 \* Cls subset of {"P","C","N","T"}: P = instructor subclass of Feedback, C = subclass of P, T = a tool feedback
 Attrs == {"template", "title"}
 \* N = another subclass of P whose own class body sets title = None, masking P's title
@@ -52,6 +52,7 @@ DeriveMsg(cls, mk) ==
     ELSE IF mk = "kwtemplate" THEN [k |-> "template", t |-> "kw", f |-> fmt]
     \* a keyword template whose format spec itself contains a replacement field: '{x:>{w}}'
     ELSE IF mk = "kwnested" THEN [k |-> "template", t |-> "kwn", f |-> fmt]
+    ELSE IF mk = "kwcustom" THEN [k |-> "template", t |-> "kwc", f |-> fmt]
     ELSE [k |-> "template", t |-> Eff(attr, cls, "template"), f |-> fmt]
 NoMsg == [k |-> "none", t |-> "-", f |-> "-"]
 
@@ -60,12 +61,17 @@ NoMsg == [k |-> "none", t |-> "-", f |-> "-"]
 Handle(o) ==
     LET condRaises == o.out = "CR"
         met0 == o.out \in {"T", "MR"}                 \* value returned by condition()
-        msgRaises == met0 /\ o.out = "MR"             \* _get_message() raises inside the try block
+        \* _get_message() raises inside the try block: fields missing ("MR"), or the template uses a format
+        \* ("kwcustom": '{x:shout}') that only formatter F3 -- a subclass that EXTENDS the list of formats -- provides
+        msgRaises == met0 /\ (o.out = "MR" \/ (o.mk = "kwcustom" /\ fmt # "F3"))
         err == condRaises \/ msgRaises
         met == IF err THEN FALSE ELSE met0            \* except: self._met_condition = False
         status == IF err THEN "error" ELSE IF met THEN "active" ELSE "inactive"
         msg == IF met THEN DeriveMsg(o.cls, o.mk) ELSE NoMsg
-    IN [obj |-> [o EXCEPT !.status = status, !.truth = met, !.msg = msg,
+        \* eff: what the evaluation amounted to ("T" held and rendered, "F" did not hold, "CR"/"MR" raised) -- the oracle
+        \* of the contract; it differs from `out` when rendering failed for want of the format
+        eff == IF msgRaises THEN "MR" ELSE o.out
+    IN [obj |-> [o EXCEPT !.status = status, !.truth = met, !.msg = msg, !.eff = eff,
                           !.list = IF met THEN "active" ELSE "ignored"],
         raises |-> err]
 
@@ -86,9 +92,9 @@ Attach(o, i) == /\ active' = IF o.list = "active" THEN Append(active, i) ELSE ac
 \* par: the `parent` keyword -- "none", or "str": a section named by a plain string (bookkeeping is the same)
 Create(cls, mk, out, delay, par) ==
     /\ CanAct /\ Len(objs) < MaxObjs
-    /\ ~(mk = "explicit" /\ out = "MR") /\ ~(cls = "T" /\ out = "CR") /\ ~(cls = "T" /\ mk = "kwnested")
+    /\ ~(mk = "explicit" /\ out = "MR") /\ ~(cls = "T" /\ out = "CR") /\ ~(cls = "T" /\ mk \in {"kwnested", "kwcustom"})
     /\ delay => cls \in DelayCls
-    /\ LET o0 == [cls |-> cls, mk |-> mk, out |-> out, status |-> "delayed", truth |-> FALSE,
+    /\ LET o0 == [cls |-> cls, mk |-> mk, out |-> out, eff |-> out, status |-> "delayed", truth |-> FALSE,
                   list |-> "none", msg |-> NoMsg]
            i == Len(objs) + 1
        IN IF delay
@@ -168,7 +174,7 @@ Next == \/ \E c \in Cls, mk \in MsgKinds, out \in Outs, d \in BOOLEAN, par \in P
         \/ \E i \in 1..MaxObjs : HandleDelayed(i)
         \/ \E c \in Cls, a \in Attrs : \E v \in Vals \cup {Pristine[c][a]} : Override(c, a, v)
         \/ Clear \/ Contextualize(TRUE) \/ Contextualize(FALSE)
-        \/ \E f \in {"F1", "F2"} : SetFormatter(f)
+        \/ \E f \in Fmts : SetFormatter(f)
 Spec == Init /\ [][Next]_vars
 
 (* ---------- CONTRACT (C20) ---------- *)
@@ -179,19 +185,19 @@ ExactlyOnce == \A i \in 1..Len(objs) :
     LET n == Cardinality({k \in 1..Len(active) : active[k] = i}) + Cardinality({k \in 1..Len(ignored) : ignored[k] = i})
     IN IF objs[i].list = "none" THEN n = 0 ELSE n = 1
 RightList == \A i \in 1..Len(objs) : objs[i].list # "none" =>
-    /\ (i \in Ids(active)) <=> (objs[i].out = "T")
-    /\ (i \in Ids(ignored)) <=> (objs[i].out # "T")
-Truth == \A i \in 1..Len(objs) : objs[i].status # "delayed" => (objs[i].truth <=> objs[i].out = "T")
+    /\ (i \in Ids(active)) <=> (objs[i].eff = "T")
+    /\ (i \in Ids(ignored)) <=> (objs[i].eff # "T")
+Truth == \A i \in 1..Len(objs) : objs[i].status # "delayed" => (objs[i].truth <=> objs[i].eff = "T")
 ErrorPath == \A i \in 1..Len(objs) : objs[i].status # "delayed" =>
-    (objs[i].out \in {"CR", "MR"} <=> objs[i].status = "error")
+    (objs[i].eff \in {"CR", "MR"} <=> objs[i].status = "error")
 \* the exception reaches the caller exactly when the condition or the message raised
 RaisesToCaller == hist # <<>> /\ Last.op \in {"create", "handle"} =>
     LET i == IF Last.op = "create" THEN Len(objs) ELSE Last.i IN
-    objs[i].status # "delayed" => (raised <=> objs[i].out \in {"CR", "MR"})
+    objs[i].status # "delayed" => (raised <=> objs[i].eff \in {"CR", "MR"})
 MessageDerivation == \A i \in 1..Len(objs) : objs[i].status = "active" =>
     LET m == objs[i].msg IN
     /\ (objs[i].mk = "explicit") => m.k = "explicit"
-    /\ (objs[i].mk # "explicit") => m.k = "template" /\ m.f \in {"F1", "F2"}
+    /\ (objs[i].mk # "explicit") => m.k = "template" /\ m.f \in Fmts
 OverridesRestored == hist # <<>> /\ Last.op \in {"clear", "context_clear"} =>
     attr = Pristine /\ overridden = {}
 
